@@ -103,6 +103,7 @@ fn main() {
         "frame_len" => cluster::frame_len(&args),
         "codec" => cluster::codec(&args),
         "read_n" => cluster::read_n(&args),
+        "reader_actor" => cluster::reader_actor(&args),
         other => {
             eprintln!("unknown scenario {other}");
             std::process::exit(3);
